@@ -134,7 +134,7 @@ static std::string ArShow(const Value& v)
 // ---------------------------------------------------------------- per-case state
 struct ArRuleLine { std::string name; std::string text[2]; };   // DSL text, plain and wrapped
 static std::vector<std::string> l_Globals;
-static std::string l_Inventory;                     // DSL text of hosts/services
+static std::vector<std::string> l_Inventory;        // DSL text of hosts/services, one entry per object
 static std::vector<ArRuleLine> l_Rules;
 static std::set<std::string> l_InvServices;         // full names of the inventory's own services
 static std::set<std::string> l_Groups;
@@ -177,14 +177,14 @@ static void ArCaseEnd()
 static struct ArInit { ArInit() { RegisterCaseEnd(ArCaseEnd); } } l_ArInit;
 
 // compile + commit WITHOUT activation: the objects exist (are registered), nothing runs
-static bool ArLoad(const std::string& text)
+static bool ArLoad(const std::string& text, int threads = 0)
 {
 	try {
 		ActivationScope scope;
 		std::unique_ptr<Expression> expr = ConfigCompiler::CompileText("<ar>", text);
 		ScriptFrame frame(true);
 		expr->Evaluate(frame);
-		WorkQueue upq(25000, Configuration::Concurrency);
+		WorkQueue upq(25000, threads > 0 ? threads : Configuration::Concurrency);
 		upq.SetName("vdrive-ar");
 		std::vector<ConfigItem::Ptr> newItems;
 		bool ok = ConfigItem::CommitItems(scope.GetContext(), upq, newItems, true);
@@ -223,7 +223,7 @@ VOP(ar_host)
 		for (const Value& x : g) l_Groups.insert(String(x));
 	}
 	o << "}\n";
-	l_Inventory += o.str();
+	l_Inventory.push_back(o.str());
 }
 
 VOP(ar_svc)
@@ -234,7 +234,7 @@ VOP(ar_svc)
 	o << "object Service " << ArParser::Quote(n) << " {\n  host_name = " << ArParser::Quote(h) << "\n  check_command = \"arcc\"\n";
 	if (a.has("vars")) o << "  vars = " << ArDsl(a.str("vars")) << "\n";
 	o << "}\n";
-	l_Inventory += o.str();
+	l_Inventory.push_back(o.str());
 	l_InvServices.insert(h + "!" + n);
 }
 
@@ -367,7 +367,8 @@ VOP(ar_load)
 	for (int w = 0; w < 2; w++) {
 		const char *tag = w ? "w" : "p";
 		ArReset();
-		std::string text = ArPreamble() + l_Inventory;
+		std::string text = ArPreamble();
+		for (auto& i : l_Inventory) text += i;
 		for (auto& r : l_Rules) text += r.text[w];
 		bool ok = ArLoad(text);
 		for (size_t i = 0; i < l_Rules.size(); i++)
@@ -376,6 +377,55 @@ VOP(ar_load)
 		auto lines = ArSnapshot(tag);
 		Out(std::string(tag) + "-load ok n=" + std::to_string(lines.size()));
 		for (auto& l : lines) Out(l);
+	}
+}
+
+// ar_order: the same configuration loaded again with the apply rules in EVERY file order (config items are
+// committed, and apply rules evaluated, in file order), alternating the number of worker threads of the commit
+// queue (1 / 4) and the file order of the inventory objects; as written (w=0) and wrapped (w=1).  Each load is
+// compared with the load in script order, default concurrency (what ar_load printed): "same", or the differing
+// set in full.
+VOP(ar_order)
+{
+	l_ArTouched = true;
+	size_t n = l_Rules.size();
+	std::vector<std::vector<size_t>> perms;
+	std::vector<size_t> id(n);
+	for (size_t i = 0; i < n; i++) id[i] = i;
+	if (n <= 4) {
+		std::vector<size_t> p = id;
+		do { perms.push_back(p); } while (std::next_permutation(p.begin(), p.end()));
+	} else {
+		perms.push_back(id);
+		std::vector<size_t> p = id; std::reverse(p.begin(), p.end()); perms.push_back(p);
+		for (size_t r = 1; r < n; r++) { p = id; std::rotate(p.begin(), p.begin() + r, p.end()); perms.push_back(p); }
+	}
+	for (int w = 0; w < 2; w++) {
+		std::string base;
+		for (size_t j = 0; j <= perms.size(); j++) {
+			// j == 0: the reference load (script order, default threads); then permutation j-1
+			const std::vector<size_t>& p = perms[j ? j - 1 : 0];
+			int threads = !j ? 0 : (j % 2 ? 1 : 4);
+			bool rev = j && (j % 4 >= 2);
+			ArReset();
+			std::string text = ArPreamble();
+			if (rev) for (auto it = l_Inventory.rbegin(); it != l_Inventory.rend(); ++it) text += *it;
+			else for (auto& i : l_Inventory) text += i;
+			for (size_t i : p) text += l_Rules[i].text[w];
+			bool ok = ArLoad(text, threads);
+			std::vector<std::string> lines;
+			if (ok) lines = ArSnapshot("o");
+			std::string sig = ok ? "ok" : "fail";
+			for (auto& l : lines) sig += "\n" + l;
+			if (!j) { base = sig; continue; }
+			std::string ps;
+			for (size_t i : p) ps += (ps.empty() ? "" : "-") + std::to_string(i);
+			std::string head = "o-load w=" + std::to_string(w) + " perm=" + (ps.empty() ? "-" : ps) + " thr=" + std::to_string(threads) + " rev=" + (rev ? "1" : "0");
+			if (sig == base) { Out(head + " same"); continue; }
+			if (!ok) { Out(head + " differs fail"); continue; }
+			Out(head + " differs ok n=" + std::to_string(lines.size()));
+			for (auto& l : lines) Out(l);
+		}
 	}
 }
 
